@@ -331,9 +331,37 @@ def compare(schema, text, rewritten):
 _FIXED = {}
 
 
+# section types that an EMPTY section satisfies only through defaults: a required multikey with
+# defaults, a required section slot is absent on purpose; both spellings of "empty" must agree
+REQDEF_SCHEMA = """<schema>
+  <sectiontype name="t"><multikey name="m" required="yes"><default>d1</default><default>d 2</default></multikey>
+    <key name="o" default="x"/></sectiontype>
+  <sectiontype name="u"><multikey name="+" attribute="mm" required="yes"><default key="a">1</default></multikey></sectiontype>
+  <sectiontype name="w"><key name="r" required="yes"/></sectiontype>
+  <multisection type="t" name="*" attribute="ts"/>
+  <multisection type="u" name="*" attribute="us"/>
+  <multisection type="w" name="*" attribute="ws"/>
+</schema>"""
+
+
+def reqdef_text(rng):
+    lines = []
+    for i in range(rng.randint(1, 4)):
+        t = rng.choice(["t", "t", "u", "w"])
+        form = rng.choice(["empty", "empty", "open-close", "filled"])
+        name = rng.choice(["", " n%d" % i])
+        if form == "empty":
+            lines.append("<%s%s/>" % (t, name))
+        elif form == "open-close":
+            lines += ["<%s%s>" % (t, name), "</%s>" % t]
+        else:
+            lines += ["<%s%s>" % (t, name), "  %s v" % {"t": "m", "u": "b", "w": "r"}[t], "</%s>" % t]
+    return "".join(l + "\n" for l in lines)
+
+
 def fixed_schema(which):
     if which not in _FIXED:
-        _FIXED[which] = loadcheck.load_schema_xml(LOGGER_SCHEMA if which == "logger" else MAPPING_SCHEMA)
+        _FIXED[which] = loadcheck.load_schema_xml({"logger": LOGGER_SCHEMA, "mapping": MAPPING_SCHEMA, "reqdef": REQDEF_SCHEMA}[which])
     return _FIXED[which]
 
 
@@ -385,7 +413,12 @@ def run_shard(spec):
     for i in range(spec["lo"], spec["hi"]):
         rng = loadcheck.case_rng(spec["seed"] + 1515, i)
         which = i % 5
-        if which == 3:
+        if i % 25 == 7:
+            fixed, ast, xml = "reqdef", None, "reqdef"
+            schema = fixed_schema("reqdef")
+            texts = [reqdef_text(rng) for _ in range(3)]
+            caseless = True
+        elif which == 3:
             fixed, ast, xml = "logger", None, "logger"
             schema = fixed_schema("logger")
             texts = [logger_text(rng) for _ in range(3)]
@@ -397,7 +430,9 @@ def run_shard(spec):
             caseless = False
         else:
             fixed = None
-            ast = gen.gen_schema(rng)
+            # every third schema: required multikeys may carry defaults (the one kind of required
+            # item that an empty section satisfies)
+            ast = gen.gen_schema(rng, allow_required_defaults=True if i % 3 == 0 else None)
             sm = refload.compile_schema(ast)
             try:
                 schema, xml = loadcheck.load_schema(ast)
